@@ -291,7 +291,7 @@ func progReplay(cfg sb.Config, rec *sb.Rec, pool *sb.Pool) {
 		return
 	}
 	var c progCase
-	if err := json.Unmarshal(rf.Case, &c); err != nil {
+	if err := json.Unmarshal(unwrapCase(rf.Case), &c); err != nil {
 		rec.InfraProblem("replay: %v", err)
 		return
 	}
